@@ -222,6 +222,29 @@ Proof.
   - discriminate.
 Qed.
 
+(* "takes R to A positional arguments but G were given" is only ever raised
+   for a call without keyword arguments (a keyword left over is reported
+   first), so G is the number of positional values *)
+Lemma positional_given_l : forall extra t args kw r a g,
+  wf t = true -> kw_distinct kw = true ->
+  fst (parse_args extra (flatten [] t) args kw) = RPositional r a g ->
+  kw = [] /\ g = length args.
+Proof.
+  intros extra t args kw r a g W K H.
+  destruct (parse_args_tree_l extra t args kw W K) as [f' [_ [_ E]]].
+  rewrite E in H. clear E.
+  destruct (extra && conflict (has_value (bind (names t) args kw)) t); [discriminate|].
+  unfold verdict in H. destruct extra; [|discriminate].
+  destruct (leftover_kw (names t) args kw) as [|[n v] l] eqn:L.
+  - destruct (Nat.ltb (length (names t)) (length args)) eqn:S; [|discriminate].
+    apply Nat.ltb_lt in S. unfold leftover_kw in L.
+    rewrite skipn_all2 in L by lia. simpl in L.
+    assert (Z : kw = []).
+    { rewrite <- L. clear. induction kw as [|x kw IH]; simpl; [reflexivity|]. f_equal. exact IH. }
+    subst kw. inversion H. simpl. split; [reflexivity | lia].
+  - destruct (mem n (firstn (length args) (names t))); discriminate.
+Qed.
+
 (* ------------------------------------------------------------------ *)
 (* checking off: nothing is ever rejected, for ANY parameter list      *)
 (* ------------------------------------------------------------------ *)
